@@ -157,6 +157,17 @@ def run(ctx, pid, bdir=None):
                 replay["rc"] = rc
                 replay["stderr"] = err[-1500:]
                 why = _unsafe(rc, out, err)
+                if why is None and (case.get("require") or case.get("forbid")):
+                    txt_ = out
+                    for a_ in args:
+                        if a_.endswith(".txt") and os.path.exists(a_):
+                            txt_ += open(a_, encoding="latin-1").read()
+                    for rx in case.get("require", []):
+                        if not re.search(rx, txt_, re.S):
+                            why = "the output does not contain /%s/" % rx
+                    for rx in case.get("forbid", []):
+                        if re.search(rx, txt_, re.S):
+                            why = "the output contains /%s/" % rx
                 xp = [a for a in args if a.endswith(".xmlout")]
                 if why is None and kind != "clean":
                     txt = out + err
